@@ -4,7 +4,9 @@ import Arc.Generated.C06
 /-! Model driver for C06 (reads ops on stdin, prints one line per op).
 
 ops
-  new <maxSizeBytes>                 start a log: clears entries and the decoder dictionary
+  new <maxSizeBytes> <t0ns>          start a log (NewWriter at instant t0): clears entries and the decoder dictionary
+  at <tns>                           the clock the next append (and a rotation it triggers) sees
+  wq <ts> <payloadhex>               AppendRaw whose framed bytes are only observed through `files`
   dict <innerhex> <r|c|n> <tokhex>   declares what the msgpack library does with one inner payload
   w raw <ts> <payloadhex>            AppendRaw / Append      → bytes of the framed entry
   w meta <ts> <dbhex> <payloadhex>   AppendRawWithMeta       → bytes of the framed entry | toolarge | panic
@@ -20,6 +22,9 @@ structure DS where
   maxSize : Nat := 0
   dict : List (Bytes × Option (Bool × Bytes)) := []
   es : List Entry := []       -- reversed
+  t0 : Nat := 0
+  now : Nat := 0
+  apps : List (Nat × Entry) := []   -- reversed: (instant, entry)
   base : Bytes := []
 
 def policyOf (b : Bool) : Policy := if b then .cont else .stop
@@ -50,10 +55,22 @@ def recStr (cfg : Cfg) (files : List Bytes) : String :=
 
 def stepC06 (s : DS) (fs : List String) : DS × String :=
   match fs with
-  | ["new", m] =>
-    match nat? m with
-    | some m => ({ maxSize := m }, "ok")
+  | ["new", m, t0] =>
+    match nat? m, nat? t0 with
+    | some m, some t0 => ({ maxSize := m, t0 := t0, now := t0 }, "ok")
+    | _, _ => (s, "bad-op")
+  | ["at", t] =>
+    match nat? t with
+    | some t => ({ s with now := t }, "ok")
     | none => (s, "bad-op")
+  | ["wq", ts, p] =>
+    match nat? ts, unhex p with
+    | some ts, some p =>
+      match appendRaw ts p with
+      | .ok e => ({ s with es := e :: s.es, apps := (s.now, e) :: s.apps }, "ok")
+      | .tooLarge => (s, "toolarge")
+      | .panic => (s, "panic")
+    | _, _ => (s, "bad-op")
   | ["dict", inner, k, tok] =>
     match unhex inner, unhex tok with
     | some i, some t =>
@@ -68,7 +85,7 @@ def stepC06 (s : DS) (fs : List String) : DS × String :=
     match nat? ts, unhex p with
     | some ts, some p =>
       match appendRaw ts p with
-      | .ok e => ({ s with es := e :: s.es }, hex (encodeEntry e))
+      | .ok e => ({ s with es := e :: s.es, apps := (s.now, e) :: s.apps }, hex (encodeEntry e))
       | .tooLarge => (s, "toolarge")
       | .panic => (s, "panic")
     | _, _ => (s, "bad-op")
@@ -76,12 +93,13 @@ def stepC06 (s : DS) (fs : List String) : DS × String :=
     match nat? ts, unhex db, unhex p with
     | some ts, some db, some p =>
       match appendRawWithMeta ts db p with
-      | .ok e => ({ s with es := e :: s.es }, hex (encodeEntry e))
+      | .ok e => ({ s with es := e :: s.es, apps := (s.now, e) :: s.apps }, hex (encodeEntry e))
       | .tooLarge => (s, "toolarge")
       | .panic => (s, "panic")
     | _, _, _ => (s, "bad-op")
   | ["files"] =>
-    (s, String.intercalate "|" ((filesOf s.maxSize s.es.reverse).map hex))
+    (s, String.intercalate "|"
+      ((namedFiles Arc.Generated.C06.fileNameResolutionNs s.maxSize s.t0 s.apps.reverse).map hex))
   | ["env", p] =>
     match unhex p with
     | some p =>
